@@ -95,6 +95,12 @@ CHECKS["C05"] = dict(
    note="Path values use canonical URL encoding and no '+' (echo/chi route on RawPath for over-escaped paths, fiber's UnescapePath turns '+' into a blank: engine matters); an absent optional parameter that carries a validator is not exercised (unstated).",
    ref="DESIGN.md §5 C05, Appendix B")
 
+CHECKS["C02"] = dict(
+   technique="trace-checking monitor over generated routers: positive requests per annotated method must yield exactly one call event naming that controller/method on each of the five engines, negative probes (other verb, extra literal segment, altered literal) none; served set compared with the spec of the same run; thorough tier replays from 32 goroutines under the race detector with unique request ids",
+   text="Runtime monitoring of real generated routers (gin/echo/mux/chi through ServeHTTP+httptest, fiber through app.Test): 10 (thorough 100) multi-controller projects with parameterised prefixes, doubled/tripled/trailing/missing slashes, same path on several verbs, hidden routes, undocumented controllers; ~800 request evaluations per quick run over ~500 distinct (engine, probe kind, route shape) cells. Exploration only.",
+   note="Negative probes never depend on engine configuration (no trailing-slash, case, HEAD/OPTIONS, redirect probes; no extra segment below a trailing {param}: echo's last :param is greedy). Only projects whose spec-and-routes run exits 0 are probed.",
+   ref="DESIGN.md §5 C02, Appendix B")
+
 NOT_YET = {
 }
 ALL = ["C%02d" % i for i in range(1, 21)]
